@@ -324,6 +324,63 @@ def rule_R14_4(ctx):
     return r
 
 
+def rule_R14_6(ctx):
+    prog = ctx.prog
+    r = RuleResult("R14.6", "a stored value and its `this` source are replaced "
+                   "together: no write updates only one field of a "
+                   "SourcedValue slot",
+                   "overwriting only `.v` leaves the slot with the `this` "
+                   "source of the value it held before (a function stored "
+                   "over another one is later called with the wrong `this`)")
+    n = 0
+    whole = 0
+    for f in prog.hand_fns():
+        if f.from_expansion:
+            continue
+        for bb in range(len(f.blocks)):
+            if f.is_cleanup(bb):
+                continue
+            dsts = [(s[1], mir.span_loc(s[3]) if len(s) > 3 else f.path) for s in f.stmts(bb)
+                    if s[0] == "=" and s[1][1]]
+            t = f.term(bb)
+            if t["k"] == "call" and t.get("dst") and t["dst"][1]:
+                dsts.append((t["dst"], mir.span_loc(t.get("span"))))
+            for pl, loc in dsts:
+                projs = [p for p in pl[1]]
+                # a store through a reference into a slot ...
+                if "*" not in projs:
+                    continue
+                last = projs[-1]
+                tys = [p for p in projs if p != "*" and p[0] == "f" and len(p) > 4 and p[4] == SV]
+                if not tys:
+                    # whole-slot stores `*slot = value` of a SourcedValue
+                    if last == "*" and pl[0] < len(f.locals) and SV in f.locals[pl[0]] \
+                            and f.locals[pl[0]].startswith("&mut"):
+                        whole += 1
+                    continue
+                # (both halves written one after the other is a whole-slot store)
+                both = set()
+                for b2 in range(len(f.blocks)):
+                    for s2 in f.stmts(b2):
+                        if s2[0] == "=" and s2[1][0] == pl[0]:
+                            for p2 in s2[1][1]:
+                                if p2 != "*" and p2[0] == "f" and len(p2) > 4 and p2[4] == SV:
+                                    both.add(p2[3])
+                if {"v", "source"} <= both:
+                    whole += 1
+                    continue
+                n += 1
+                r.fail("%s | partial update of a stored value field=%s" % (f.path, tys[-1][3]),
+                       "%s overwrites only the `%s` field of a stored "
+                       "SourcedValue: the other half (value / `this` source) "
+                       "of the previous occupant is kept" % (f.path, tys[-1][3]), where=loc)
+    r.inst("whole-slot stores through &mut SourcedValue: %d; field-only stores: %d" % (whole, n))
+    if not n:
+        r.ok()
+    r.require_floor("whole-slot stores (`*slot = value`)", whole, 1)
+    return r
+
+
 def _places_feeding(f, operand, depth=0):
     """Places read on the single-definition copy chain of an operand."""
     out = []
@@ -411,7 +468,8 @@ def rule_R14_5(ctx):
 
 
 def run(ctx):
-    return [rule_R14_1(ctx), rule_R14_2(ctx), rule_R14_3(ctx), rule_R14_4(ctx), rule_R14_5(ctx)]
+    return [rule_R14_1(ctx), rule_R14_2(ctx), rule_R14_3(ctx), rule_R14_4(ctx), rule_R14_5(ctx),
+            rule_R14_6(ctx)]
 
 
 META = {
